@@ -651,3 +651,33 @@ func drawCall(t *rapid.T, p Pool, opts []lib.Options, gc bool) Call {
 	}
 	return c
 }
+
+// BigIndexPatches reports, per buffer, whether it is a patch document holding a
+// numeric reference token above 10^4. Applying such a patch under
+// EnsurePathExistsOnAdd pads arrays element by element (quadratic) and is
+// outside the stated domain (C04); histories and workloads skip those calls.
+func BigIndexPatches(bufs []Text) []bool {
+	out := make([]bool, len(bufs))
+	for i, b := range bufs {
+		pt, err := ref.Parse(b)
+		if err != nil || pt.K != ref.KArr {
+			continue
+		}
+		for _, e := range pt.Arr {
+			if e.K != ref.KObj {
+				continue
+			}
+			for j, k := range e.Keys {
+				if (k == "path" || k == "from") && e.Vals[j].K == ref.KStr && lib.BigIndex(e.Vals[j].Str) {
+					out[i] = true
+				}
+			}
+		}
+	}
+	return out
+}
+
+// Skips: the call is outside the stated domain (see BigIndexPatches).
+func (c Call) Skips(big []bool) bool {
+	return c.NeedsPatch() && c.Fn != FAccessors && c.Opts != nil && c.Opts.Ensure && big[c.B]
+}
